@@ -246,6 +246,9 @@ class ExprMixin:
         return z3.And(*[to_z3(r) for r in res])
 
     def compare1(self, st, op, a, b, node):
+        hk = self.ctx._hook("compare", self, st, op, a, b, node)
+        if hk is not NotImplemented:
+            return hk
         if isinstance(op, (ast.Is, ast.IsNot)):
             r = self.is_same(st, a, b)
             return r if isinstance(op, ast.Is) else ((not r) if isinstance(r, bool) else z3.Not(r))
